@@ -1,6 +1,1069 @@
-//! C49 — not implemented yet.
-use mc_core::Ctx;
+//! C49 — execution limits are enforced exactly.
+//!
+//! A native probe blueprint (`LimProbe`, published through the repo's own `OverridePackageCode` mechanism; one
+//! global instance `H` with one field and one key-value collection) interprets a script `Vec<Op>`; every op is one
+//! *family* parameterised by n and aimed at one limit of `SystemOverrides.limit_parameters`:
+//!
+//! | family      | what the probe does                                             | limit                        |
+//! |-------------|-----------------------------------------------------------------|------------------------------|
+//! | Depth(n)    | n nested `LimProbe::recurse` calls below `H.run` (depth 1 + n)  | max_call_depth               |
+//! | Key(n)      | opens a KV entry of `H` whose SBOR key is n bytes long          | max_substate_key_size        |
+//! | Val(n)      | writes an n-byte SBOR payload into a KV entry of `H`            | max_substate_value_size      |
+//! | Invoke(n)   | calls `LimProbe::noop` with an invocation of n bytes            | max_invoke_input_size        |
+//! | Event(n)    | emits one event with an n-byte payload                          | max_event_size               |
+//! | Log(n)      | emits one log message of n bytes                                | max_log_size                 |
+//! | Panic(n)    | `panic` with an n-byte message                                  | max_panic_message_size       |
+//! | Events(n)   | emits n (6-byte) events                                         | max_number_of_events         |
+//! | Logs(n)     | emits n empty log messages                                      | max_number_of_logs           |
+//! | Heap(n)     | creates an owned object with an n-byte field and drops it       | max_heap_substate_total_bytes (differential) |
+//! | Track(n)    | = Val(n) (the entry of the global `H` lives in the track)       | max_track_substate_total_bytes (differential) |
+//!
+//! Enumerated: every family × every limit value of its list × every n in the window around the limit, and every
+//! ordered pair of two different families with both limits small and both n ∈ {ℓ, ℓ+1}. The reference model
+//! (`model`) is a 60-line interpreter of the script that knows only the limit table and the sizes the *harness*
+//! constructs; it never looks at engine state. Oracle: the receipt is a success iff the model says no op exceeds,
+//! otherwise it is a committed failure whose error is exactly the `TransactionLimitsError` variant of the first
+//! exceeding op (a set of variants where one op exceeds two limits at once and the statement does not fix the order).
+//! In addition every committed receipt is scanned: number and sizes of events and logs and the key and value sizes of
+//! all written substates never exceed the configured limits ("no committed transaction exceeds …").
+//!
+//! Heap and track totals have implementation-defined accounting ⇒ differential single-threshold oracle (DESIGN):
+//! bisection finds the minimal limit T at which a fixed script succeeds; then success ⇔ limit ≥ T is required on the
+//! whole window [T-3, T+3], failures in the window must carry exactly that limit's error, and
+//! T(script with one more byte) = T + 1.
+use mc_core::{par_for, Ctx, Level, Local};
+use mc_ledger::*;
+use radix_engine::errors::{ApplicationError, RuntimeError, SystemModuleError};
+use radix_engine::kernel::kernel_api::{KernelNodeApi, KernelSubstateApi};
+use radix_engine::system::system_callback::SystemLockData;
+use radix_engine::system::system_modules::limits::TransactionLimitsError;
+use radix_engine::transaction::LimitParameters;
+use radix_engine::vm::{OverridePackageCode, VmApi, VmInvoke};
+use radix_engine_interface::api::{AttachedModuleId, FieldValue, LockFlags, SystemApi, ACTOR_STATE_SELF};
+use radix_blueprint_schema_init::*;
+use sbor::basic_well_known_types::ANY_TYPE;
+use radix_native_sdk::modules::metadata::Metadata;
+use radix_native_sdk::modules::role_assignment::RoleAssignment;
+use serde_json::{json, Map, Value};
+use std::collections::BTreeSet;
 
-pub fn run(_ctx: Ctx) -> ! {
-    mc_core::machinery_error("C49: not implemented")
+const CODE_ID: u64 = 4949;
+const BP: &str = "LimProbe";
+const F_RUN: &str = "run";
+const F_RECURSE: &str = "recurse";
+const F_NOOP: &str = "noop";
+const F_NEW: &str = "new";
+const EVENT: &str = "Ev";
+
+#[derive(ScryptoSbor, ManifestSbor, Clone, Copy, Debug, PartialEq, Eq, PartialOrd, Ord)]
+pub enum Op {
+    Depth(u32),
+    Key(u32),
+    Val(u32),
+    Invoke(u32),
+    Event(u32),
+    Log(u32),
+    Panic(u32),
+    Events(u32),
+    Logs(u32),
+    Heap(u32),
+}
+
+// ------------------------------------------------------------------------------------------------
+// size-exact SBOR builders (harness side; shared by the probe and the model)
+// ------------------------------------------------------------------------------------------------
+
+fn leb_len(k: usize) -> usize {
+    let mut n = 1;
+    let mut k = k >> 7;
+    while k != 0 {
+        n += 1;
+        k >>= 7;
+    }
+    n
+}
+
+/// Scrypto-SBOR payload `Vec<u8>` whose *total* encoded length is exactly `n` (prefix 0x5c, kind 0x20, element
+/// kind 0x07, LEB128 length, bytes). None when no such payload exists (n < 4, or n falls in a LEB128 gap).
+pub fn bytes_payload(n: usize) -> Option<Vec<u8>> {
+    for l in 1..=4usize {
+        if n < 3 + l {
+            continue;
+        }
+        let k = n - 3 - l;
+        if leb_len(k) == l {
+            let v = scrypto_encode(&vec![0xABu8; k]).unwrap();
+            assert_eq!(v.len(), n);
+            return Some(v);
+        }
+    }
+    None
+}
+
+/// Scrypto-SBOR payload of a tuple `(Vec<u8>,)` with total length n (the argument tuple of `noop`).
+pub fn args_payload(n: usize) -> Option<Vec<u8>> {
+    // 0x5c 0x21 0x01 | 0x20 0x07 leb(k) bytes
+    for l in 1..=4usize {
+        if n < 5 + l {
+            continue;
+        }
+        let k = n - 5 - l;
+        if leb_len(k) == l {
+            let v = scrypto_encode(&(vec![0xCDu8; k],)).unwrap();
+            assert_eq!(v.len(), n);
+            return Some(v);
+        }
+    }
+    None
+}
+
+/// bytes by which the identification of the callee adds to an invocation (`KernelInvocation::len` = actor
+/// identification + SBOR arguments; for a function actor: package address + blueprint name + function name)
+fn callee_len(func: &str) -> usize {
+    NodeId::LENGTH + BP.len() + func.len()
+}
+fn method_callee_len(method: &str) -> usize {
+    NodeId::LENGTH + method.len()
+}
+
+fn recurse_args(k: u32) -> Vec<u8> {
+    scrypto_encode(&(k,)).unwrap()
+}
+
+// ------------------------------------------------------------------------------------------------
+// the probe
+// ------------------------------------------------------------------------------------------------
+
+#[derive(Clone)]
+pub struct LimProbe;
+
+/// the probe's only event type (the package validator wants a struct named like the event)
+#[derive(ScryptoSbor, Clone, Debug)]
+pub struct Ev {
+    pub data: Vec<u8>,
+}
+/// encoded size of the smallest event `Ev { data: [] }`
+const SMALL_EVENT: usize = 6;
+
+fn app_err(msg: &str) -> RuntimeError {
+    // a harness-side problem surfaced as a recognisable application error (never expected; machinery error if seen)
+    RuntimeError::ApplicationError(ApplicationError::PanicMessage(format!("LIMPROBE-HARNESS-ERROR: {msg}")))
+}
+
+impl VmInvoke for LimProbe {
+    fn invoke<Y: SystemApi<RuntimeError> + KernelNodeApi + KernelSubstateApi<SystemLockData>, V: VmApi>(
+        &mut self,
+        export_name: &str,
+        input: &IndexedScryptoValue,
+        api: &mut Y,
+        _vm_api: &V,
+    ) -> Result<IndexedScryptoValue, RuntimeError> {
+        let dec = |e| RuntimeError::ApplicationError(ApplicationError::InputDecodeError(e));
+        match export_name {
+            F_NEW => {
+                let metadata = Metadata::create(api)?;
+                let access_rules = RoleAssignment::create(OwnerRole::None, indexmap!(), api)?;
+                let node_id = api.new_simple_object(BP, indexmap!(0u8 => FieldValue::new(())))?;
+                let addr = api.globalize(
+                    node_id,
+                    indexmap!(
+                        AttachedModuleId::Metadata => metadata.0,
+                        AttachedModuleId::RoleAssignment => access_rules.0.0,
+                    ),
+                    None,
+                )?;
+                Ok(IndexedScryptoValue::from_typed(&addr))
+            }
+            F_NOOP => Ok(IndexedScryptoValue::from_typed(&())),
+            F_RECURSE => {
+                let (k,): (u32,) = input.as_typed().map_err(dec)?;
+                if k > 0 {
+                    let pkg = api.actor_get_blueprint_id()?.package_address;
+                    api.call_function(pkg, BP, F_RECURSE, recurse_args(k - 1))?;
+                }
+                Ok(IndexedScryptoValue::from_typed(&()))
+            }
+            F_RUN => {
+                let (ops,): (Vec<Op>,) = input.as_typed().map_err(dec)?;
+                let pkg = api.actor_get_blueprint_id()?.package_address;
+                for op in ops {
+                    match op {
+                        Op::Depth(n) => {
+                            if n > 0 {
+                                api.call_function(pkg, BP, F_RECURSE, recurse_args(n - 1))?;
+                            }
+                        }
+                        Op::Key(n) => {
+                            let key = bytes_payload(n as usize).ok_or_else(|| app_err("key length not constructible"))?;
+                            let h = api.actor_open_key_value_entry(ACTOR_STATE_SELF, 0u8, &key, LockFlags::read_only())?;
+                            api.key_value_entry_close(h)?;
+                        }
+                        Op::Val(n) => {
+                            let val = bytes_payload(n as usize).ok_or_else(|| app_err("value length not constructible"))?;
+                            let key = scrypto_encode(&0u8).unwrap();
+                            let h = api.actor_open_key_value_entry(ACTOR_STATE_SELF, 0u8, &key, LockFlags::MUTABLE)?;
+                            api.key_value_entry_set(h, val)?;
+                            api.key_value_entry_close(h)?;
+                        }
+                        Op::Invoke(n) => {
+                            let a = (n as usize).checked_sub(callee_len(F_NOOP)).ok_or_else(|| app_err("invoke size below callee size"))?;
+                            let args = args_payload(a).ok_or_else(|| app_err("argument length not constructible"))?;
+                            api.call_function(pkg, BP, F_NOOP, args)?;
+                        }
+                        Op::Event(n) => {
+                            // `Ev { data }` encodes exactly like the 1-tuple `(Vec<u8>,)`
+                            let p = args_payload(n as usize).ok_or_else(|| app_err("event length not constructible"))?;
+                            api.actor_emit_event(EVENT.to_string(), p, EventFlags::empty())?;
+                        }
+                        Op::Log(n) => {
+                            api.emit_log(radix_engine_interface::types::Level::Info, "l".repeat(n as usize))?;
+                        }
+                        Op::Panic(n) => {
+                            api.panic("p".repeat(n as usize))?;
+                        }
+                        Op::Events(n) => {
+                            for _ in 0..n {
+                                api.actor_emit_event(EVENT.to_string(), scrypto_encode(&Ev { data: vec![] }).unwrap(), EventFlags::empty())?;
+                            }
+                        }
+                        Op::Logs(n) => {
+                            for _ in 0..n {
+                                api.emit_log(radix_engine_interface::types::Level::Info, String::new())?;
+                            }
+                        }
+                        Op::Heap(n) => {
+                            let p = bytes_payload(n as usize).ok_or_else(|| app_err("heap payload length not constructible"))?;
+                            let v: ScryptoValue = scrypto_decode(&p).unwrap();
+                            let node = api.new_simple_object(BP, indexmap!(0u8 => FieldValue::new(v)))?;
+                            api.drop_object(&node)?;
+                        }
+                    }
+                }
+                Ok(IndexedScryptoValue::from_typed(&()))
+            }
+            _ => Err(app_err("unknown export")),
+        }
+    }
+}
+
+type PExt = OverridePackageCode<LimProbe>;
+type PSim = Sim<PExt>;
+
+fn definition() -> PackageDefinition {
+    let any = || TypeRef::Static(LocalTypeId::WellKnown(ANY_TYPE));
+    let f = |name: &str, receiver: bool| {
+        (
+            name.to_string(),
+            FunctionSchemaInit {
+                receiver: if receiver { Some(ReceiverInfo::normal_ref_mut()) } else { None },
+                input: any(),
+                output: any(),
+                export: name.to_string(),
+            },
+        )
+    };
+    let (ev_type, schema) = sbor::generate_full_schema_from_single_type::<Ev, ScryptoCustomSchema>();
+    assert_eq!(scrypto_encode(&Ev { data: vec![] }).unwrap().len(), SMALL_EVENT);
+    let mut blueprints = index_map_new();
+    blueprints.insert(
+        BP.to_string(),
+        BlueprintDefinitionInit {
+            schema: BlueprintSchemaInit {
+                schema,
+                state: BlueprintStateSchemaInit {
+                    fields: vec![FieldSchema::static_field(LocalTypeId::WellKnown(ANY_TYPE))],
+                    collections: vec![BlueprintCollectionSchema::KeyValueStore(BlueprintKeyValueSchema { key: any(), value: any(), allow_ownership: false })],
+                },
+                events: BlueprintEventSchemaInit { event_schema: indexmap!(EVENT.to_string() => TypeRef::Static(ev_type)) },
+                functions: BlueprintFunctionsSchemaInit {
+                    functions: vec![f(F_NEW, false), f(F_NOOP, false), f(F_RECURSE, false), f(F_RUN, true)].into_iter().collect(),
+                },
+                ..Default::default()
+            },
+            ..Default::default()
+        },
+    );
+    PackageDefinition { blueprints }
+}
+
+fn sim_from(snap: &Snap) -> PSim {
+    LedgerSimulatorBuilder::new()
+        .with_custom_extension(OverridePackageCode::new(CODE_ID, LimProbe))
+        .without_kernel_trace()
+        .without_receipt_substate_check()
+        .build_from_snapshot(snap.clone())
+}
+
+struct Base {
+    snap: Snap,
+    holder: ComponentAddress,
+}
+
+fn build_base() -> Base {
+    let mut sim: PSim = LedgerSimulatorBuilder::new()
+        .with_custom_extension(OverridePackageCode::new(CODE_ID, LimProbe))
+        .without_kernel_trace()
+        .without_receipt_substate_check()
+        .build();
+    let pkg = sim.publish_native_package(CODE_ID, definition());
+    let r = sim.execute_manifest(ManifestBuilder::new().lock_fee_from_faucet().call_function(pkg, BP, F_NEW, manifest_args!()).build(), vec![]);
+    let holder = r.expect_commit_success().new_component_addresses()[0];
+    Base { snap: sim.create_snapshot(), holder }
+}
+
+// ------------------------------------------------------------------------------------------------
+// limits and the reference model
+// ------------------------------------------------------------------------------------------------
+
+#[derive(Clone, Copy, Debug, PartialEq, Eq, PartialOrd, Ord, Hash)]
+pub enum Lim {
+    Depth,
+    Key,
+    Val,
+    Invoke,
+    Event,
+    Log,
+    Panic,
+    Events,
+    Logs,
+    Heap,
+    Track,
+}
+
+fn lim_name(l: Lim) -> &'static str {
+    match l {
+        Lim::Depth => "max_call_depth",
+        Lim::Key => "max_substate_key_size",
+        Lim::Val => "max_substate_value_size",
+        Lim::Invoke => "max_invoke_input_size",
+        Lim::Event => "max_event_size",
+        Lim::Log => "max_log_size",
+        Lim::Panic => "max_panic_message_size",
+        Lim::Events => "max_number_of_events",
+        Lim::Logs => "max_number_of_logs",
+        Lim::Heap => "max_heap_substate_total_bytes",
+        Lim::Track => "max_track_substate_total_bytes",
+    }
+}
+
+fn set_lim(p: &mut LimitParameters, l: Lim, v: usize) {
+    match l {
+        Lim::Depth => p.max_call_depth = v,
+        Lim::Key => p.max_substate_key_size = v,
+        Lim::Val => p.max_substate_value_size = v,
+        Lim::Invoke => p.max_invoke_input_size = v,
+        Lim::Event => p.max_event_size = v,
+        Lim::Log => p.max_log_size = v,
+        Lim::Panic => p.max_panic_message_size = v,
+        Lim::Events => p.max_number_of_events = v,
+        Lim::Logs => p.max_number_of_logs = v,
+        Lim::Heap => p.max_heap_substate_total_bytes = v,
+        Lim::Track => p.max_track_substate_total_bytes = v,
+    }
+}
+
+fn limits_json(p: &LimitParameters) -> Value {
+    json!({
+        "max_call_depth": p.max_call_depth, "max_substate_key_size": p.max_substate_key_size,
+        "max_substate_value_size": p.max_substate_value_size, "max_invoke_input_size": p.max_invoke_input_size,
+        "max_event_size": p.max_event_size, "max_log_size": p.max_log_size, "max_panic_message_size": p.max_panic_message_size,
+        "max_number_of_events": p.max_number_of_events, "max_number_of_logs": p.max_number_of_logs,
+        "max_heap_substate_total_bytes": p.max_heap_substate_total_bytes, "max_track_substate_total_bytes": p.max_track_substate_total_bytes,
+    })
+}
+
+fn limits_from_json(v: &Value) -> LimitParameters {
+    let g = |k: &str| v.get(k).and_then(|x| x.as_u64()).unwrap_or(0) as usize;
+    LimitParameters {
+        max_call_depth: g("max_call_depth"),
+        max_heap_substate_total_bytes: g("max_heap_substate_total_bytes"),
+        max_track_substate_total_bytes: g("max_track_substate_total_bytes"),
+        max_substate_key_size: g("max_substate_key_size"),
+        max_substate_value_size: g("max_substate_value_size"),
+        max_invoke_input_size: g("max_invoke_input_size"),
+        max_event_size: g("max_event_size"),
+        max_log_size: g("max_log_size"),
+        max_panic_message_size: g("max_panic_message_size"),
+        max_number_of_logs: g("max_number_of_logs"),
+        max_number_of_events: g("max_number_of_events"),
+    }
+}
+
+/// Harness-side facts about the fixed parts of a probe transaction, measured once under the default limits
+/// from the *receipt / database* (never from the limits module) and asserted constant.
+#[derive(Clone, Debug)]
+struct Calib {
+    /// stored size of the KV entry substate minus the size of the payload written by Val(n)
+    val_overhead: usize,
+    /// invocation size of `H.run(ops)` excluding the SBOR arguments
+    run_callee: usize,
+    /// invocation size of the transaction processor for the empty script (found by bisection over the invoke limit)
+    proc_base: usize,
+}
+
+/// depth of the frame of `H.run` (see `model`)
+const RUN_DEPTH: usize = 1;
+
+#[derive(Clone, Debug, PartialEq, Eq)]
+enum Expect {
+    /// the fixed parts of the transaction (processor, H.run) do not fit the limit table: harness mistake
+    Background,
+    Success,
+    /// committed failure with one of these limit errors
+    Limit(BTreeSet<&'static str>),
+    /// committed failure with the (within-limit) panic message
+    PanicMessage,
+}
+
+/// Reference model: interprets the script against the limit table. Depth layout: the transaction processor runs
+/// in the root frame (depth 0), so a call made by a manifest instruction (`H.run`) runs at depth 1 — this is what
+/// the repo's own kernel/frame.rs test relies on (MAX_CALL_DEPTH - 1 self-calls below the first call succeed).
+fn model(ops: &[Op], lim: &LimitParameters, cal: &Calib) -> Expect {
+    let run_depth = RUN_DEPTH;
+    let mut events = 0usize;
+    let mut logs = 0usize;
+    // the invocation of H.run itself
+    let run_args = scrypto_encode(&(ops.to_vec(),)).unwrap().len();
+    let empty_args = scrypto_encode(&(Vec::<Op>::new(),)).unwrap().len();
+    if run_depth > lim.max_call_depth || cal.run_callee + run_args > lim.max_invoke_input_size || cal.proc_base + (run_args - empty_args) > lim.max_invoke_input_size {
+        return Expect::Background;
+    }
+    for op in ops {
+        let mut ex: BTreeSet<&'static str> = BTreeSet::new();
+        match *op {
+            Op::Depth(n) => {
+                // frames run_depth+1 ..= run_depth+n; the first one that does not fit fails
+                if run_depth + n as usize > lim.max_call_depth {
+                    ex.insert("MaxCallDepthLimitReached");
+                }
+                if n > 0 {
+                    // payload of the recursion calls (only relevant when the invoke limit is tiny); the largest
+                    // is the first one; depth and payload are checked in this order for each call, so when both
+                    // are exceeded somewhere along the chain either can come first
+                    let biggest = (0..n).map(|k| callee_len(F_RECURSE) + recurse_args(k).len()).max().unwrap();
+                    if biggest > lim.max_invoke_input_size {
+                        ex.insert("MaxInvokePayloadSizeExceeded");
+                    }
+                }
+            }
+            Op::Key(n) => {
+                if n as usize > lim.max_substate_key_size {
+                    ex.insert("MaxSubstateKeySizeExceeded");
+                }
+            }
+            Op::Val(n) => {
+                if n as usize + cal.val_overhead > lim.max_substate_value_size {
+                    ex.insert("MaxSubstateSizeExceeded");
+                }
+            }
+            Op::Invoke(n) => {
+                if run_depth + 1 > lim.max_call_depth {
+                    ex.insert("MaxCallDepthLimitReached");
+                }
+                if n as usize > lim.max_invoke_input_size {
+                    ex.insert("MaxInvokePayloadSizeExceeded");
+                }
+            }
+            Op::Event(n) => {
+                if events + 1 > lim.max_number_of_events {
+                    ex.insert("TooManyEvents");
+                }
+                if n as usize > lim.max_event_size {
+                    ex.insert("EventSizeTooLarge");
+                }
+                events += 1;
+            }
+            Op::Log(n) => {
+                if logs + 1 > lim.max_number_of_logs {
+                    ex.insert("TooManyLogs");
+                }
+                if n as usize > lim.max_log_size {
+                    ex.insert("LogSizeTooLarge");
+                }
+                logs += 1;
+            }
+            Op::Panic(n) => {
+                if n as usize > lim.max_panic_message_size {
+                    ex.insert("PanicMessageSizeTooLarge");
+                } else {
+                    return Expect::PanicMessage;
+                }
+            }
+            Op::Events(n) => {
+                if events + n as usize > lim.max_number_of_events {
+                    ex.insert("TooManyEvents");
+                }
+                // the payload of the small events
+                if n > 0 && SMALL_EVENT > lim.max_event_size {
+                    ex.insert("EventSizeTooLarge");
+                }
+                events += n as usize;
+            }
+            Op::Logs(n) => {
+                if logs + n as usize > lim.max_number_of_logs {
+                    ex.insert("TooManyLogs");
+                }
+                logs += n as usize;
+            }
+            Op::Heap(_) => {}
+        }
+        if !ex.is_empty() {
+            return Expect::Limit(ex);
+        }
+    }
+    Expect::Success
+}
+
+// ------------------------------------------------------------------------------------------------
+// running and observing
+// ------------------------------------------------------------------------------------------------
+
+#[derive(Clone, Debug, PartialEq, Eq)]
+enum Obs {
+    Success,
+    Limit(String),
+    PanicMessage,
+    Other(String),
+}
+
+fn cfg_with(lim: &LimitParameters) -> ExecutionConfig {
+    let mut cfg = ExecutionConfig::for_test_transaction();
+    cfg.enable_cost_breakdown = false;
+    cfg.system_overrides = Some(SystemOverrides { limit_parameters: Some(lim.clone()), disable_costing: true, ..SystemOverrides::with_network(NetworkDefinition::simulator()) });
+    cfg
+}
+
+fn limit_variant(e: &TransactionLimitsError) -> &'static str {
+    match e {
+        TransactionLimitsError::MaxSubstateKeySizeExceeded(..) => "MaxSubstateKeySizeExceeded",
+        TransactionLimitsError::MaxSubstateSizeExceeded(..) => "MaxSubstateSizeExceeded",
+        TransactionLimitsError::MaxInvokePayloadSizeExceeded(..) => "MaxInvokePayloadSizeExceeded",
+        TransactionLimitsError::MaxCallDepthLimitReached => "MaxCallDepthLimitReached",
+        TransactionLimitsError::TrackSubstateSizeExceeded { .. } => "TrackSubstateSizeExceeded",
+        TransactionLimitsError::HeapSubstateSizeExceeded { .. } => "HeapSubstateSizeExceeded",
+        TransactionLimitsError::LogSizeTooLarge { .. } => "LogSizeTooLarge",
+        TransactionLimitsError::EventSizeTooLarge { .. } => "EventSizeTooLarge",
+        TransactionLimitsError::PanicMessageSizeTooLarge { .. } => "PanicMessageSizeTooLarge",
+        TransactionLimitsError::TooManyLogs => "TooManyLogs",
+        TransactionLimitsError::TooManyEvents => "TooManyEvents",
+    }
+}
+
+fn classify_err(e: &RuntimeError) -> Obs {
+    match e {
+        RuntimeError::SystemModuleError(SystemModuleError::TransactionLimitsError(t)) => Obs::Limit(limit_variant(t).to_string()),
+        RuntimeError::ApplicationError(ApplicationError::PanicMessage(m)) if !m.starts_with("LIMPROBE-HARNESS-ERROR") => Obs::PanicMessage,
+        other => Obs::Other(mc_core::truncate(&format!("{other:?}"), 300)),
+    }
+}
+
+/// Scan of a committed receipt against the limits: "no committed transaction exceeds …".
+fn receipt_within_limits(c: &CommitResult, lim: &LimitParameters) -> Result<(), (String, String)> {
+    if c.application_events.len() > lim.max_number_of_events {
+        return Err(("committed-exceeds:max_number_of_events".into(), format!("{} events committed, limit {}", c.application_events.len(), lim.max_number_of_events)));
+    }
+    for (_, payload) in &c.application_events {
+        if payload.len() > lim.max_event_size {
+            return Err(("committed-exceeds:max_event_size".into(), format!("event of {} bytes committed, limit {}", payload.len(), lim.max_event_size)));
+        }
+    }
+    if c.application_logs.len() > lim.max_number_of_logs {
+        return Err(("committed-exceeds:max_number_of_logs".into(), format!("{} logs committed, limit {}", c.application_logs.len(), lim.max_number_of_logs)));
+    }
+    for (_, m) in &c.application_logs {
+        if m.len() > lim.max_log_size {
+            return Err(("committed-exceeds:max_log_size".into(), format!("log of {} bytes committed, limit {}", m.len(), lim.max_log_size)));
+        }
+    }
+    for ((_node, _part, key), upd) in c.state_updates.clone().into_flattened_substate_updates() {
+        let klen = match &key {
+            SubstateKey::Map(m) => m.len(),
+            SubstateKey::Sorted((_, m)) => m.len() + 2,
+            SubstateKey::Field(_) => 1,
+        };
+        if klen > lim.max_substate_key_size {
+            return Err(("committed-exceeds:max_substate_key_size".into(), format!("substate key of {klen} bytes committed, limit {}", lim.max_substate_key_size)));
+        }
+        if let DatabaseUpdate::Set(v) = upd {
+            if v.len() > lim.max_substate_value_size {
+                return Err(("committed-exceeds:max_substate_value_size".into(), format!("substate of {} bytes committed, limit {}", v.len(), lim.max_substate_value_size)));
+            }
+        }
+    }
+    Ok(())
+}
+
+struct RunOut {
+    obs: Obs,
+    /// scan result for committed receipts
+    scan: Result<(), (String, String)>,
+    /// size of the KV entry (key 0u8) of H written by this transaction, if any
+    val_entry_size: Option<usize>,
+}
+
+fn run_script(sim: &mut PSim, base: &Base, ops: &[Op], lim: &LimitParameters) -> Result<RunOut, String> {
+    sim.restore_snapshot(base.snap.clone());
+    let m = ManifestBuilder::new().call_method(base.holder, F_RUN, (ops.to_vec(),)).build();
+    let r = exec_cfg(sim, m, vec![], cfg_with(lim))?;
+    Ok(match &r.result {
+        TransactionResult::Commit(c) => {
+            let scan = receipt_within_limits(c, lim);
+            let mut val_entry_size = None;
+            let key0 = scrypto_encode(&0u8).unwrap();
+            for ((node, _part, key), upd) in c.state_updates.clone().into_flattened_substate_updates() {
+                if node == *base.holder.as_node_id() {
+                    if let (SubstateKey::Map(k), DatabaseUpdate::Set(v)) = (&key, &upd) {
+                        if *k == key0 {
+                            val_entry_size = Some(v.len());
+                        }
+                    }
+                }
+            }
+            let obs = match &c.outcome {
+                TransactionOutcome::Success(_) => Obs::Success,
+                TransactionOutcome::Failure(e) => classify_err(e),
+            };
+            RunOut { obs, scan, val_entry_size }
+        }
+        TransactionResult::Reject(rj) => RunOut { obs: Obs::Other(format!("reject:{:?}", rj.reason)), scan: Ok(()), val_entry_size: None },
+        TransactionResult::Abort(a) => RunOut { obs: Obs::Other(format!("abort:{:?}", a.reason)), scan: Ok(()), val_entry_size: None },
+    })
+}
+
+fn agrees(exp: &Expect, obs: &Obs) -> bool {
+    match (exp, obs) {
+        (Expect::Success, Obs::Success) => true,
+        (Expect::PanicMessage, Obs::PanicMessage) => true,
+        (Expect::Limit(set), Obs::Limit(v)) => set.contains(v.as_str()),
+        _ => false,
+    }
+}
+
+#[derive(Clone, Debug)]
+struct Case {
+    ops: Vec<Op>,
+    lim: LimitParameters,
+    tag: String,
+}
+
+fn case_json(c: &Case) -> Value {
+    json!({"ops": c.ops.iter().map(|o| format!("{o:?}")).collect::<Vec<_>>(), "ops_sbor": mc_core::hex(&scrypto_encode(&c.ops).unwrap()), "limits": limits_json(&c.lim), "tag": c.tag})
+}
+
+fn fam_op(l: Lim, n: u32) -> Op {
+    match l {
+        Lim::Depth => Op::Depth(n),
+        Lim::Key => Op::Key(n),
+        Lim::Val | Lim::Track => Op::Val(n),
+        Lim::Invoke => Op::Invoke(n),
+        Lim::Event => Op::Event(n),
+        Lim::Log => Op::Log(n),
+        Lim::Panic => Op::Panic(n),
+        Lim::Events => Op::Events(n),
+        Lim::Logs => Op::Logs(n),
+        Lim::Heap => Op::Heap(n),
+    }
+}
+
+/// n for a family at "its own quantity equals q" (the quantity the limit is compared with)
+fn fam_n_for_quantity(l: Lim, q: i64, cal: &Calib) -> Option<u32> {
+    let n = match l {
+        // depth quantity = RUN_DEPTH + n
+        Lim::Depth => q - RUN_DEPTH as i64,
+        // stored size = n + overhead
+        Lim::Val => q - cal.val_overhead as i64,
+        _ => q,
+    };
+    if n < 0 {
+        return None;
+    }
+    let n = n as usize;
+    let ok = match l {
+        Lim::Key | Lim::Val => bytes_payload(n).is_some(),
+        Lim::Event => args_payload(n).is_some(),
+        Lim::Invoke => n >= callee_len(F_NOOP) && args_payload(n - callee_len(F_NOOP)).is_some(),
+        _ => true,
+    };
+    if ok {
+        Some(n as u32)
+    } else {
+        None
+    }
+}
+
+fn limit_values(l: Lim, thorough: bool) -> Vec<usize> {
+    // Chosen above the fixed needs of the transaction itself (processor + H.run; checked by the calibration
+    // cases: the family at a tiny n must succeed under every limit value used, else machinery error), avoiding
+    // the LEB128 gaps of the size-exact builders, and straddling the 127/128 length-prefix boundary.
+    let (q, t): (&[usize], &[usize]) = match l {
+        Lim::Depth => (&[2, 4, 8], &[1, 2, 3, 4, 5, 6, 8, 12, 16]),
+        Lim::Key => (&[64, 100, 200], &[48, 64, 100, 127, 129, 140, 200, 1024]),
+        Lim::Val => (&[600, 1000, 20000], &[600, 700, 1000, 4096, 16500, 20000, 70000]),
+        Lim::Invoke => (&[300, 500, 1000], &[300, 400, 500, 1000, 5000, 17000]),
+        Lim::Event => (&[8, 100, 200], &[6, 8, 64, 100, 129, 140, 200, 1000, 17000]),
+        Lim::Log => (&[0, 1, 100], &[0, 1, 2, 50, 100, 127, 128, 1000, 32768]),
+        Lim::Panic => (&[0, 1, 100], &[0, 1, 2, 50, 100, 127, 128, 1000, 32768]),
+        Lim::Events => (&[0, 1, 5], &[0, 1, 2, 3, 5, 16, 64, 256]),
+        Lim::Logs => (&[0, 1, 5], &[0, 1, 2, 3, 5, 16, 64, 256]),
+        Lim::Heap | Lim::Track => (&[], &[]),
+    };
+    if thorough {
+        t.to_vec()
+    } else {
+        q.to_vec()
+    }
+}
+
+const FAMILIES: [Lim; 9] = [Lim::Depth, Lim::Key, Lim::Val, Lim::Invoke, Lim::Event, Lim::Log, Lim::Panic, Lim::Events, Lim::Logs];
+
+fn eval_case(sim: &mut PSim, base: &Base, cal: &Calib, c: &Case, l: &mut Local) {
+    l.eval();
+    let exp = model(&c.ops, &c.lim, cal);
+    if exp == Expect::Background {
+        mc_core::machinery_error(&format!("C49: case below the transaction's own needs was generated: {} {:?}", c.tag, c.ops));
+    }
+    let out = match run_script(sim, base, &c.ops, &c.lim) {
+        Ok(o) => o,
+        Err(p) => {
+            l.violation(format!("panic@{}", mc_core::last_panic_location()), format!("panic escaped the engine: {p}"), case_json(c));
+            return;
+        }
+    };
+    if let Err((k, w)) = &out.scan {
+        l.violation(k.clone(), w.clone(), case_json(c));
+    }
+    if let Obs::Other(t) = &out.obs {
+        if t.contains("LIMPROBE-HARNESS-ERROR") {
+            mc_core::machinery_error(&format!("C49 probe could not build a case: {t} for {:?}", c.ops));
+        }
+    }
+    if agrees(&exp, &out.obs) {
+        match &out.obs {
+            Obs::Success => l.class("within-limits:success"),
+            Obs::PanicMessage => l.class("within-limits:panic-message-delivered"),
+            Obs::Limit(v) => l.class(&format!("exceeds:{v}")),
+            Obs::Other(_) => unreachable!(),
+        }
+        l.sample(|| json!({"case": case_json(c), "expected": format!("{exp:?}"), "observed": format!("{:?}", out.obs)}));
+    } else {
+        let key = match (&exp, &out.obs) {
+            (Expect::Success, Obs::Limit(v)) | (Expect::PanicMessage, Obs::Limit(v)) => format!("failed-within-limit:{v}"),
+            (Expect::Limit(s), Obs::Success) | (Expect::Limit(s), Obs::PanicMessage) => format!("not-enforced:{}", s.iter().cloned().collect::<Vec<_>>().join("|")),
+            (Expect::Limit(s), Obs::Limit(v)) => format!("wrong-limit-error:{}:got:{v}", s.iter().cloned().collect::<Vec<_>>().join("|")),
+            (_, Obs::Other(_)) => "unexpected-outcome".to_string(),
+            _ => "mismatch".to_string(),
+        };
+        l.violation(key, format!("{}: model expects {exp:?}, engine gave {:?}", c.tag, out.obs), case_json(c));
+    }
+}
+
+fn calibrate(base: &Base) -> Calib {
+    let mut sim = sim_from(&base.snap);
+    let lim = LimitParameters::babylon_genesis();
+    let mut overheads = BTreeSet::new();
+    for n in [10usize, 100, 200, 1000, 20000] {
+        let out = run_script(&mut sim, base, &[Op::Val(n as u32)], &lim).unwrap_or_else(|p| mc_core::machinery_error(&format!("C49 calibration panicked: {p}")));
+        if out.obs != Obs::Success {
+            mc_core::machinery_error(&format!("C49 calibration Val({n}) did not succeed under default limits: {:?}", out.obs));
+        }
+        let sz = out.val_entry_size.unwrap_or_else(|| mc_core::machinery_error("C49 calibration: written KV entry not found in the receipt"));
+        overheads.insert(sz as i64 - n as i64);
+    }
+    if overheads.len() != 1 || *overheads.iter().next().unwrap() < 0 {
+        mc_core::machinery_error(&format!("C49 calibration: KV entry overhead is not a constant: {overheads:?}"));
+    }
+    // size of the transaction processor's own invocation for the empty script: minimal invoke limit with success
+    let (mut lo, mut hi) = (0usize, 1usize << 16);
+    let ok = |v: usize, sim: &mut PSim| {
+        let mut l = lim.clone();
+        l.max_invoke_input_size = v;
+        matches!(run_script(sim, base, &[], &l), Ok(RunOut { obs: Obs::Success, .. }))
+    };
+    if !ok(hi, &mut sim) || ok(lo, &mut sim) {
+        mc_core::machinery_error("C49 calibration: cannot bracket the processor invocation size");
+    }
+    while hi - lo > 1 {
+        let mid = (lo + hi) / 2;
+        if ok(mid, &mut sim) {
+            hi = mid;
+        } else {
+            lo = mid;
+        }
+    }
+    Calib { val_overhead: *overheads.iter().next().unwrap() as usize, run_callee: method_callee_len(F_RUN), proc_base: hi }
+}
+
+fn build_cases(ctx: &Ctx, cal: &Calib) -> (Vec<Case>, Vec<Case>) {
+    let thorough = !ctx.quick();
+    let window: Vec<i64> = if thorough { vec![-2, -1, 0, 1, 2] } else { vec![-1, 0, 1] };
+    let default = LimitParameters::babylon_genesis();
+    let mut cases = vec![];
+    let mut calib_cases = vec![];
+    for fam in FAMILIES {
+        for lv in limit_values(fam, thorough) {
+            let mut lim = default.clone();
+            set_lim(&mut lim, fam, lv);
+            // calibration: the family at its smallest n under this limit value must not trip over the limit unless the
+            // model itself says so (then the limit value is below the transaction's own needs and is reported)
+            for d in &window {
+                let q = lv as i64 + d;
+                if let Some(n) = fam_n_for_quantity(fam, q, cal) {
+                    cases.push(Case { ops: vec![fam_op(fam, n)], lim: lim.clone(), tag: format!("{}={lv}:n=limit{:+}", lim_name(fam), d) });
+                }
+            }
+        }
+    }
+    // pairs of two different families, both limits at their first (smallest usable) value, both n ∈ {ℓ, ℓ+1}, both orders
+    let pair_vals = |f: Lim| -> Vec<usize> {
+        let v = limit_values(f, false);
+        if thorough {
+            vec![v[0], v[1]]
+        } else {
+            vec![v[1]]
+        }
+    };
+    for (i, fa) in FAMILIES.iter().enumerate() {
+        for fb in FAMILIES.iter().skip(i + 1) {
+            for la in pair_vals(*fa) {
+                for lb in pair_vals(*fb) {
+                    let mut lim = default.clone();
+                    set_lim(&mut lim, *fa, la);
+                    set_lim(&mut lim, *fb, lb);
+                    for da in [0i64, 1] {
+                        for db in [0i64, 1] {
+                            let (Some(na), Some(nb)) = (fam_n_for_quantity(*fa, la as i64 + da, cal), fam_n_for_quantity(*fb, lb as i64 + db, cal)) else { continue };
+                            let a = fam_op(*fa, na);
+                            let b = fam_op(*fb, nb);
+                            let tag = format!("pair:{}={la}{:+},{}={lb}{:+}", lim_name(*fa), da, lim_name(*fb), db);
+                            cases.push(Case { ops: vec![a, b], lim: lim.clone(), tag: format!("{tag}:ab") });
+                            cases.push(Case { ops: vec![b, a], lim: lim.clone(), tag: format!("{tag}:ba") });
+                        }
+                    }
+                }
+            }
+        }
+    }
+    // calibration set: every case's script shape with all parameters tiny, under the same limit table
+    let mut seen = BTreeSet::new();
+    for c in &cases {
+        let tiny: Vec<Op> = c.ops.iter().map(tiny_op).collect();
+        if seen.insert((format!("{tiny:?}"), limits_json(&c.lim).to_string())) {
+            calib_cases.push(Case { ops: tiny, lim: c.lim.clone(), tag: format!("calibration of [{}]", c.tag) });
+        }
+    }
+    (cases, calib_cases)
+}
+
+/// the same op with the smallest constructible parameter
+fn tiny_op(op: &Op) -> Op {
+    match op {
+        Op::Depth(_) => Op::Depth(0),
+        Op::Key(_) => Op::Key(4),
+        Op::Val(_) => Op::Val(4),
+        Op::Invoke(_) => Op::Invoke((callee_len(F_NOOP) + 6) as u32),
+        Op::Event(_) => Op::Event(SMALL_EVENT as u32),
+        Op::Log(_) => Op::Log(0),
+        Op::Panic(_) => Op::Panic(0),
+        Op::Events(_) => Op::Events(0),
+        Op::Logs(_) => Op::Logs(0),
+        Op::Heap(_) => Op::Heap(4),
+    }
+}
+
+// ------------------------------------------------------------------------------------------------
+// heap / track: differential single-threshold oracle
+// ------------------------------------------------------------------------------------------------
+
+fn differential(ctx: &Ctx, base: &Base, which: Lim, sizes: &[u32], l: &mut Local, thresholds: &mut Map<String, Value>) {
+    let err_name = if which == Lim::Heap { "HeapSubstateSizeExceeded" } else { "TrackSubstateSizeExceeded" };
+    let mut sim = sim_from(&base.snap);
+    let default = LimitParameters::babylon_genesis();
+    let mut run = |n: u32, limit: usize, l: &mut Local| -> Obs {
+        l.eval();
+        let mut lim = default.clone();
+        set_lim(&mut lim, which, limit);
+        let c = Case { ops: vec![fam_op(which, n)], lim: lim.clone(), tag: format!("{}={limit}:differential", lim_name(which)) };
+        match run_script(&mut sim, base, &c.ops, &lim) {
+            Ok(o) => {
+                if let Err((k, w)) = &o.scan {
+                    l.violation(k.clone(), w.clone(), case_json(&c));
+                }
+                o.obs
+            }
+            Err(p) => {
+                l.violation(format!("panic@{}", mc_core::last_panic_location()), format!("panic escaped the engine: {p}"), case_json(&c));
+                Obs::Other("panic".into())
+            }
+        }
+    };
+    let mut ts: Vec<(u32, usize)> = vec![];
+    for &n in sizes {
+        // bisection for the minimal limit with success, assuming monotonicity (verified on the window below)
+        let (mut lo, mut hi) = (0usize, 1usize << 22);
+        if run(n, hi, l) != Obs::Success {
+            mc_core::machinery_error(&format!("C49 {}: script does not succeed even with a 4 MiB limit", lim_name(which)));
+        }
+        if run(n, lo, l) == Obs::Success {
+            // threshold 0: nothing is accounted for this script; nothing to check
+            l.info(&format!("{}:threshold-is-zero", lim_name(which)));
+            continue;
+        }
+        while hi - lo > 1 {
+            let mid = (lo + hi) / 2;
+            if run(n, mid, l) == Obs::Success {
+                hi = mid;
+            } else {
+                lo = mid;
+            }
+        }
+        let t = hi;
+        let w = if ctx.quick() { 3usize } else { 8 };
+        for limit in t.saturating_sub(w)..=t + w {
+            let obs = run(n, limit, l);
+            let mut lim = default.clone();
+            set_lim(&mut lim, which, limit);
+            let c = Case { ops: vec![fam_op(which, n)], lim, tag: format!("{}: threshold {t}, limit {limit}", lim_name(which)) };
+            if limit >= t {
+                if obs == Obs::Success {
+                    l.class(&format!("differential:{}:at-or-above-threshold:success", lim_name(which)));
+                } else {
+                    l.violation(format!("threshold-not-single:{}", lim_name(which)), format!("script n={n}: succeeds at limit {t} but at limit {limit} gives {obs:?}"), case_json(&c));
+                }
+            } else {
+                match &obs {
+                    Obs::Limit(v) if v == err_name => l.class(&format!("differential:{}:below-threshold:{err_name}", lim_name(which))),
+                    Obs::Success => l.violation(format!("threshold-not-single:{}", lim_name(which)), format!("script n={n}: fails at limit {} but succeeds at the smaller limit {limit}", t - 1), case_json(&c)),
+                    other => l.violation(format!("wrong-limit-error:{err_name}"), format!("script n={n}: below its threshold {t} (limit {limit}) the failure is {other:?}, not {err_name}"), case_json(&c)),
+                }
+            }
+        }
+        ts.push((n, t));
+        thresholds.insert(format!("{}:n={n}", lim_name(which)), json!(t));
+    }
+    // one more byte of payload ⇒ threshold + 1
+    for w in ts.windows(2) {
+        let ((n0, t0), (n1, t1)) = (w[0], w[1]);
+        if n1 == n0 + 1 {
+            let mut lim = default.clone();
+            set_lim(&mut lim, which, t1);
+            let c = Case { ops: vec![fam_op(which, n1)], lim, tag: format!("{}: T({n0})={t0}, T({n1})={t1}", lim_name(which)) };
+            if t1 == t0 + 1 {
+                l.class(&format!("differential:{}:one-byte-more-threshold+1", lim_name(which)));
+            } else {
+                l.violation(format!("threshold-step:{}", lim_name(which)), format!("T(n={n0}) = {t0} but T(n={n1}) = {t1}; one more byte must move the threshold by exactly 1"), case_json(&c));
+            }
+        }
+    }
+}
+
+// ------------------------------------------------------------------------------------------------
+
+pub fn run(ctx: Ctx) -> ! {
+    let base = build_base();
+    let cal = calibrate(&base);
+
+    if let Some(case) = ctx.read_replay_case() {
+        let ops_hex = case.get("ops_sbor").and_then(|x| x.as_str()).unwrap_or("");
+        let ops: Vec<Op> = scrypto_decode(&mc_core::unhex(ops_hex)).unwrap_or_else(|e| mc_core::machinery_error(&format!("bad ops in replay: {e:?}")));
+        let lim = limits_from_json(case.get("limits").unwrap_or(&Value::Null));
+        let c = Case { ops, lim, tag: "replay".into() };
+        let mut sim = sim_from(&base.snap);
+        let mut l = Local::new();
+        let exp = model(&c.ops, &c.lim, &cal);
+        let out = run_script(&mut sim, &base, &c.ops, &c.lim);
+        println!("REPLAY ops={:?}\n  limits={}\n  model expects: {exp:?}\n  engine: {:?}", c.ops, limits_json(&c.lim), out.as_ref().map(|o| o.obs.clone()));
+        eval_case(&mut sim, &base, &cal, &c, &mut l);
+        l.class("replay");
+        ctx.merge(l);
+        ctx.finish(Level::Exploration, "replay", 1, true, Map::new(), &[]);
+    }
+
+    let (cases, calib_cases) = build_cases(&ctx, &cal);
+
+    // calibration of the chosen limit tables: the same script shapes with tiny parameters must behave as the model
+    // says (otherwise a limit value is below the fixed needs of the transaction itself — processor, auth zone,
+    // package lookups — and the family's boundary would not be about the family's op): harness mistake, exit 2
+    {
+        let bad: std::sync::Mutex<Vec<String>> = std::sync::Mutex::new(vec![]);
+        let outs = mc_core::par_map(ctx.threads, &calib_cases, |c| {
+            let mut sim = sim_from(&base.snap);
+            let exp = model(&c.ops, &c.lim, &cal);
+            let out = run_script(&mut sim, &base, &c.ops, &c.lim);
+            (exp, out.map(|o| o.obs))
+        });
+        for (c, (exp, out)) in calib_cases.iter().zip(outs) {
+            match out {
+                Ok(obs) if exp != Expect::Background && agrees(&exp, &obs) => {}
+                Ok(obs) => bad.lock().unwrap().push(format!("{} ops={:?}: model {exp:?}, engine {obs:?}", c.tag, c.ops)),
+                Err(p) => bad.lock().unwrap().push(format!("{}: panic {p}", c.tag)),
+            }
+        }
+        let bad = bad.into_inner().unwrap();
+        if !bad.is_empty() {
+            mc_core::machinery_error(&format!("C49: {} calibration case(s) disagree (limit value below the transaction's own needs?): first: {}", bad.len(), bad[0]));
+        }
+        ctx.note(format!("{} calibration transactions (tiny parameters under every limit table used) agreed with the model", calib_cases.len()));
+    }
+
+    par_for(&ctx, &cases, |c, l| {
+        thread_local! { static SIM: std::cell::RefCell<Option<PSim>> = const { std::cell::RefCell::new(None) }; }
+        SIM.with(|s| {
+            let mut s = s.borrow_mut();
+            if s.is_none() {
+                *s = Some(sim_from(&base.snap));
+            }
+            eval_case(s.as_mut().unwrap(), &base, &cal, c, l);
+        });
+    });
+
+    // heap / track
+    let mut thresholds = Map::new();
+    {
+        let mut l = Local::new();
+        let sizes: Vec<u32> = if ctx.quick() { vec![2000, 2001] } else { vec![100, 101, 102, 2000, 2001, 2002, 20000, 20001] };
+        differential(&ctx, &base, Lim::Heap, &sizes, &mut l, &mut thresholds);
+        differential(&ctx, &base, Lim::Track, &sizes, &mut l, &mut thresholds);
+        ctx.merge(l);
+    }
+
+    // measured: number of distinct (family/pair, limit table) configurations whose boundary was crossed in both directions
+    let classes = ctx.classes();
+    let nontrivial = cases.iter().map(|c| format!("{:?}|{}", c.ops.iter().map(std::mem::discriminant).collect::<Vec<_>>(), limits_json(&c.lim))).collect::<BTreeSet<_>>().len() as u64;
+    let _ = classes;
+
+    let mut cov = Map::new();
+    cov.insert("programs".into(), json!(cases.len() as u64));
+    cov.insert("families".into(), json!(FAMILIES.iter().map(|f| lim_name(*f)).collect::<Vec<_>>()));
+    cov.insert(
+        "limit_values".into(),
+        Value::Object(FAMILIES.iter().map(|f| (lim_name(*f).to_string(), json!(limit_values(*f, !ctx.quick())))).collect()),
+    );
+    cov.insert("n_window".into(), json!(if ctx.quick() { "limit-1 ..= limit+1" } else { "limit-2 ..= limit+2" }));
+    cov.insert("pairs".into(), json!("all unordered pairs of 2 different families x both orders x n in {limit, limit+1}^2"));
+    cov.insert("calibration".into(), json!({"kv_entry_overhead_bytes": cal.val_overhead, "run_callee_bytes": cal.run_callee}));
+    cov.insert("differential_thresholds".into(), Value::Object(thresholds));
+    cov.insert(
+        "limits_covered".into(),
+        json!(["max_call_depth", "max_substate_key_size (map keys)", "max_substate_value_size (KV entry write)", "max_invoke_input_size", "max_event_size", "max_log_size",
+               "max_panic_message_size", "max_number_of_events", "max_number_of_logs", "max_heap_substate_total_bytes (differential)", "max_track_substate_total_bytes (differential)"]),
+    );
+    cov.insert(
+        "not_covered".into(),
+        json!(["sorted-index keys (key size + 2) and field keys", "substate value size on node creation / field write paths (only KV entry writes are driven; Heap(n) creates objects under the default value limit)",
+               "absolute heap/track byte accounting (implementation-defined; only single-threshold and +1-byte step are checked)", "limits under a costing-enabled configuration (costing is disabled so that small limits are usable)",
+               "WASM-side limits (memory, buffers) and costing limits are not part of LimitParameters"]),
+    );
+    ctx.finish(
+        Level::Exploration,
+        "distinct (script shape, limit table) configurations; each is evaluated at every n of the window around the limit",
+        nontrivial,
+        true,
+        cov,
+        &[
+            "call depth: the transaction processor runs in the root frame (depth 0); the call made by the manifest instruction (H.run) is at depth 1, each nested call one deeper; a call at depth d is allowed iff d <= max_call_depth",
+            "invoke payload size = SBOR argument bytes + callee identification bytes (node id / package address + blueprint + function name), as KernelInvocation::len defines it",
+            "the stored size of a KV entry = payload + a constant wrapper overhead measured from committed receipts (asserted constant over 5 payload sizes)",
+            "costing disabled (SystemOverrides.disable_costing) so that no fee-lock background interferes with small limits; limits module enabled",
+        ],
+    )
 }
